@@ -230,17 +230,20 @@ def run13(ck):
                  "same": 0, "lenfield": -1, "kind": kind}
             try:
                 data = CEMILData.init_from_telegram(tg, src_addr=IndividualAddress(0x1109))
+                sysb, cerr = bool((hop + ack) % 2), bool((rep + ack) % 2 and hop == 0)     # system broadcast and the error bit of a confirmation, too
                 if (hop + rep) % 2:                       # flags given at construction ...
-                    data.flags = CEMIFlags(priority=prio, repeat_on_error=bool(rep), acknowledge_request=bool(ack), hop_count=hop)
+                    data.flags = CEMIFlags(priority=prio, repeat_on_error=bool(rep), acknowledge_request=bool(ack), hop_count=hop, system_broadcast=sysb, confirm_error=cerr)
                 else:                                     # ... or set on the frame built from the telegram
                     data.flags.priority, data.flags.repeat_on_error, data.flags.acknowledge_request = prio, bool(rep), bool(ack)
                     data.flags.hop_count = hop
+                    data.flags.system_broadcast, data.flags.confirm_error = sysb, cerr
                 raw = CEMIFrame(code=CEMIMessageCode.L_DATA_IND, data=data).to_knx()
                 c.update(out="ok", ft=raw[2] >> 7, at=raw[3] >> 7, lenfield=raw[8])
                 back = CEMIFrame.from_knx(raw).data
                 c["same"] = 1 if (back.src_addr == data.src_addr and back.dst_addr == data.dst_addr and back.tpci == data.tpci and back.payload == data.payload
                                   and back.flags.priority == data.flags.priority and back.flags.repeat_on_error == data.flags.repeat_on_error
-                                  and back.flags.acknowledge_request == data.flags.acknowledge_request and back.flags.hop_count == data.flags.hop_count) else 0
+                                  and back.flags.acknowledge_request == data.flags.acknowledge_request and back.flags.hop_count == data.flags.hop_count
+                                  and back.flags.system_broadcast == data.flags.system_broadcast and back.flags.confirm_error == data.flags.confirm_error) else 0
             except Exception as ex:  # noqa: BLE001 - any refusal at the call
                 c["note"] = type(ex).__name__
             cases.append(c)
